@@ -302,9 +302,10 @@ class Slip32KeyDeserializer:
         if len(ser_key_bytes) == 0:
             raise ValueError("Invalid extended key (no bytes)")
         depth = ser_key_bytes[depth_idx]
-        # The key field is always 33-byte long (compressed public key, or private key with a zero byte prepended)
+        # The key field is 33-byte long (compressed public key, or private key with a zero byte prepended);
+        # extended (64-byte) ed25519 private keys are serialized with a 65-byte field
         exp_len = path_idx + (depth * Bip32KeyIndex.FixedLength()) + Bip32ChainCode.FixedLength() + 33
-        if len(ser_key_bytes) != exp_len:
+        if len(ser_key_bytes) != exp_len and (is_public or len(ser_key_bytes) != exp_len + 32):
             raise ValueError(f"Invalid extended key (wrong length: {len(ser_key_bytes)}, expected: {exp_len})")
         path = Bip32Path()
         for i in range(depth):
